@@ -174,7 +174,7 @@ func runConc(it *ConcItem, ks *sut.KeySet, workRoot string) (res ConcResult) {
 	}
 	select {
 	case <-finished:
-	case <-time.After(time.Duration(20+total*3) * time.Second):
+	case <-time.After(time.Duration(40+total*4) * time.Second):
 		mu.Lock()
 		n := len(res.History)
 		mu.Unlock()
